@@ -250,6 +250,26 @@ func (e *Enc) call(fr *Frame, val ssa.Value, cc *ssa.CallCommon, instr ssa.Instr
 		return h2
 	}
 	key := e.w.funcKey(callee)
+	// `inlines F` in the contract of the function being verified: F's body is analysed
+	// at this call instead of its (coarser, possibly trusted) contract.  Sound: the body
+	// is the real code; it only makes this proof independent of F's summary.
+	if e.contract != nil && e.contract.inlinesCallee(key) && e.inlinable(fr, callee) {
+		return e.inline(fr, val, callee, clo, args, g, h, pos)
+	}
+	if e.contract != nil {
+		if vk := e.contract.variantOf(key); vk != "" {
+			if c := e.w.cs.Contracts[vk]; c != nil {
+				var names []string
+				var ptypes []types.Type
+				for _, p := range callee.Params {
+					names = append(names, p.Name())
+					ptypes = append(ptypes, p.Type())
+				}
+				return e.applyContract(fr, val, c, vk, names, ptypes, callee.Signature, args, g, h, pos, callee)
+			}
+			e.fatalf("variant contract %s not found", vk)
+		}
+	}
 	if c := e.w.cs.Contracts[key]; c != nil && !(clo != nil && len(clo.bindings) > 0 && false) {
 		var names []string
 		var ptypes []types.Type
